@@ -122,6 +122,90 @@ def quietBlock2B (s : App) (c : CSet) (b : Block) : Bool :=
    | .ok s2 => quietTxs2B b.txs s2 [] && fits2B (runTxs genEnv b.txs s2 [] []).2 c
    | .error _ => true)
 
+/-! ### the same class with the admin's operations arriving through governance: proposals executed by x/gov's EndBlocker
+    (the default configuration: the admin is the gov account) -/
+
+/-- the state after x/gov executed one proposal: its messages all or nothing -/
+def govStep (s : App) (sg : Signer) (ms : List Msg) : App :=
+  match handleList genLimitFacts s sg ms with
+  | .ok s' => s'
+  | _ => s
+
+def govOk (s : App) (sg : Signer) (ms : List Msg) : Bool :=
+  match handleList genLimitFacts s sg ms with
+  | .ok _ => true
+  | _ => false
+
+def handleOk (s : App) (sg : Signer) (m : Msg) : Bool :=
+  match handle genLimitFacts s sg m with
+  | .ok _ => true
+  | _ => false
+
+/-- one message of the wider quiet class, judged at the state it meets (the conditions of `quietTx2B`) -/
+def quietMsg1B (s : App) (sg : Signer) (m : Msg) : Bool :=
+  match sg, m with
+  | .admin, .setPower (some op) p _ =>
+    !handleOk s sg m || (s.pendingFind op).isSome ||
+      ((match s.getVal op with | some v => decide (powerOf v.tokens > 0) && !v.jailed | none => true) &&
+        !s.updated.contains op && !s.index.contains (p / PR, op))
+  | _, .remove (some op) =>
+    !handleOk s sg m ||
+      (match s.getVal op with
+       | some v => decide (powerOf v.tokens > 0) && !v.jailed && !s.updated.contains op && s.index.contains (powerOf v.tokens, op)
+       | none => false)
+  | _, .create _ => true
+  | _, .rmPending _ => true
+  | _, .params _ => true
+  | _, _ => (match handle genLimitFacts s sg m with | .ok s' => decide (s' = s) | _ => true)
+
+/-- a list of messages executed in order, each judged at the state the earlier ones left (while they succeed) -/
+def quietMsgListB : App → Signer → List Msg → Bool
+  | _, _, [] => true
+  | s, sg, m :: rest =>
+    quietMsg1B s sg m && (match handle genLimitFacts s sg m with | .ok s' => quietMsgListB s' sg rest | _ => true)
+
+/-- the messages of one executed proposal: all or nothing -/
+def quietMsgs2B (s : App) (sg : Signer) (ms : List Msg) : Bool :=
+  !govOk s sg ms || quietMsgListB s sg ms
+
+def quietGov2B (sg : Signer) : List (List Msg) → App → Bool
+  | [], _ => true
+  | ms :: rest, s => quietMsgs2B s sg ms && quietGov2B sg rest (govStep s sg ms)
+
+/-- a transaction: of the class `quietTx2B`, or failing, or a list of messages of the class -/
+def quietTx3B (s : App) (incs : List (Signer × Nat)) (tx : Tx) : Bool :=
+  quietTx2B s incs tx || (runTx genEnv s incs tx).1 != TxR.ok || quietMsgListB s tx.signer tx.msgs
+
+def quietTxs3B : List Tx → App → List (Signer × Nat) → Bool
+  | [], _, _ => true
+  | tx :: rest, s, incs => quietTx3B s incs tx && quietTxs3B rest (runTx genEnv s incs tx).2.1 (runTx genEnv s incs tx).2.2
+
+/-- the state x/gov's EndBlocker leaves -/
+def govFold (sg : Signer) : List (List Msg) → App → App
+  | [], s => s
+  | ms :: rest, s => govFold sg rest (govStep s sg ms)
+
+def quietBlock3B (s : App) (c : CSet) (b : Block) : Bool :=
+  (match punishState s b with
+   | .ok s1 => punShapeB { s with height := s.height + 1, time := s.time + b.dt } s1
+   | .error _ => false) &&
+  (match beginState genEnv s b with
+   | .ok s2 =>
+     quietTxs3B b.txs s2 [] && quietGov2B (govSigner b) b.gov (runTxs genEnv b.txs s2 [] []).2 &&
+       fits2B (govFold (govSigner b) b.gov (runTxs genEnv b.txs s2 [] []).2) c
+   | .error _ => true)
+
+def quietRun3B : List Block → App → CSet → Bool
+  | [], _, _ => true
+  | b :: bs, s, c =>
+    quietBlock3B s c b &&
+    (match block genEnv s b with
+     | .ok (o, s') =>
+       (match Comet.applyChangeSet c o.updates with
+        | .ok c' => quietRun3B bs s' c'
+        | .error _ => true)
+     | .error _ => true)
+
 def quietRun2B : List Block → App → CSet → Bool
   | [], _, _ => true
   | b :: bs, s, c =>
